@@ -33,10 +33,12 @@ import (
 )
 
 type connRec struct {
-	data   []byte
-	killed bool // reset by the injector
-	eof    bool // closed by the client
-	open   bool
+	remote   string
+	sentinel bool // the harness's own marker connection (see flushAccepts)
+	data     []byte
+	killed   bool // reset by the injector
+	eof      bool // closed by the client
+	open     bool
 }
 
 type faultServer struct {
@@ -72,11 +74,14 @@ func newFaultServer(plans []int) *faultServer {
 			default:
 			}
 			if err != nil {
-				continue
+				if ne, ok := err.(net.Error); ok && ne.Timeout() {
+					continue
+				}
+				return // listener closed
 			}
 			s.mu.Lock()
 			idx := len(s.conns)
-			rec := &connRec{open: true}
+			rec := &connRec{open: true, remote: c.RemoteAddr().String()}
 			s.conns = append(s.conns, rec)
 			plan := -1
 			if idx < len(s.plans) {
@@ -158,6 +163,58 @@ func (s *faultServer) quiesce(idle, limit time.Duration) {
 	}
 }
 
+// flushAccepts: the harness dials a marker connection and waits until the server has accepted it.  The kernel hands
+// connections to Accept in the order they were established, so every connection the client made before this call
+// has been accepted (and has a record) when it returns.  Purely logical: no guess about how long accepting takes.
+func (s *faultServer) flushAccepts(limit time.Duration) bool {
+	c, err := net.DialTimeout("tcp", s.ln.Addr().String(), limit)
+	if err != nil {
+		return false
+	}
+	defer c.Close()
+	me := c.LocalAddr().String()
+	deadline := time.Now().Add(limit)
+	for time.Now().Before(deadline) {
+		s.mu.Lock()
+		for _, r := range s.conns {
+			if r.remote == me {
+				r.sentinel = true
+				s.mu.Unlock()
+				return true
+			}
+		}
+		s.mu.Unlock()
+		time.Sleep(2 * time.Millisecond)
+	}
+	return false
+}
+
+// waitAllRead: every connection of the client has been read to its end (EOF after the client's Close, or the
+// injector's reset)
+func (s *faultServer) waitAllRead(limit time.Duration) bool {
+	deadline := time.Now().Add(limit)
+	for {
+		s.mu.Lock()
+		pending := false
+		for _, c := range s.conns {
+			if c.open && !c.sentinel {
+				pending = true
+			}
+		}
+		s.mu.Unlock()
+		if !pending {
+			return true
+		}
+		if time.Now().After(deadline) {
+			return false
+		}
+		time.Sleep(5 * time.Millisecond)
+	}
+}
+
+// stopAccepting: no further connection can be made (a late re-dial of the client's goroutine is refused)
+func (s *faultServer) stopAccepting() { s.ln.Close() }
+
 func (s *faultServer) close() {
 	close(s.stop)
 	s.ln.Close()
@@ -165,7 +222,7 @@ func (s *faultServer) close() {
 	go func() { s.wg.Wait(); close(done) }()
 	select {
 	case <-done:
-	case <-time.After(3 * time.Second):
+	case <-time.After(30 * time.Second):
 	}
 }
 
@@ -310,7 +367,7 @@ func faultPhase(env *vh.Env, rep *vh.Report, r *vh.Rng) {
 		var results []sendRes
 		var client *oneway.OneWayTcpClient
 		addr := srv.ln.Addr().String()
-		run := vh.GuardTimeout(40*time.Second, func() {
+		run := vh.GuardTimeout(10*time.Minute, func() {
 			switch sc.path {
 			case "direct":
 				client = oneway.GetOneWayTcpClient(oneway.WithServers([]string{addr}), oneway.WithLicense("x"))
@@ -319,11 +376,11 @@ func faultPhase(env *vh.Env, rep *vh.Report, r *vh.Rng) {
 			default:
 				client = oneway.NewForVerif(oneway.WithServers([]string{addr}), oneway.WithLicense("x"), oneway.WithUseQueue())
 			}
-			client.Timeout = 3 * time.Second
+			client.Timeout = 30 * time.Second // the peer always reads or resets promptly: this only bounds a hang
 			for i, name := range order {
 				p, _ := byName[name].c.build()
 				var err error
-				o := vh.GuardTimeout(15*time.Second, func() { err = client.Send(p, wnetLicense(byName[name].c.lic)) })
+				o := vh.GuardTimeout(3*time.Minute, func() { err = client.Send(p, wnetLicense(byName[name].c.lic)) })
 				e := ""
 				if !o.OK() {
 					e = o.String() + ": " + vh.Clip(o.Panic, 100)
@@ -333,7 +390,7 @@ func faultPhase(env *vh.Env, rep *vh.Report, r *vh.Rng) {
 				if sc.path == "sendAndClear" && (i == 1 || i == len(order)-1 || i == 2) {
 					// flush what is queued: after S1+B, after S2, at the end
 					var ferr error
-					o2 := vh.GuardTimeout(15*time.Second, func() { ferr = client.SendAndClear() })
+					o2 := vh.GuardTimeout(3*time.Minute, func() { ferr = client.SendAndClear() })
 					if !o2.OK() {
 						e += " SendAndClear " + o2.String()
 					} else if ferr != nil {
@@ -347,11 +404,36 @@ func faultPhase(env *vh.Env, rep *vh.Report, r *vh.Rng) {
 				}
 			}
 		})
-		srv.quiesce(250*time.Millisecond, 4*time.Second)
-		if client != nil {
-			vh.GuardTimeout(5*time.Second, func() { client.Close(); client.Destroy(); client.StopForVerif() })
+		// End of the scenario, without relying on wall-clock guesses for the verdict:
+		//  1. (queued path) wait until the background goroutine has taken every item — bounded, generous; this only
+		//     decides how much was sent, not whether what was sent is well formed;
+		//  2. stop the client: cancel its goroutine, Close() → the kernel delivers what was written, then FIN;
+		//  3. wait until every connection that carried bytes has been read to its end (EOF or the injector's reset).
+		// After that every connection is dead and complete; if one is still open after the (very generous) limit the
+		// scenario is inconclusive and gives no verdict.
+		if sc.path == "queue" && client != nil {
+			deadline := time.Now().Add(60 * time.Second)
+			for time.Now().Before(deadline) {
+				n := 1
+				vh.Guard(func() { n = client.Queue.Size() })
+				if n == 0 {
+					break
+				}
+				time.Sleep(10 * time.Millisecond)
+			}
+			srv.quiesce(300*time.Millisecond, 20*time.Second)
 		}
-		time.Sleep(30 * time.Millisecond)
+		//  2. cancel the client's goroutine; flush the accept queue (marker connection); refuse further connections;
+		//     Close() the client → FIN after whatever it wrote;
+		accepted := true
+		if client != nil {
+			vh.GuardTimeout(2*time.Minute, func() { client.Destroy(); client.StopForVerif() })
+			accepted = srv.flushAccepts(2 * time.Minute)
+			srv.stopAccepting()
+			vh.GuardTimeout(2*time.Minute, func() { client.Close() })
+		}
+		//  3. every connection is read to its end
+		inconclusive := !accepted || !srv.waitAllRead(90*time.Second)
 		srv.close()
 		rep.Case(fmt.Sprintf("fault %s %s k=%d", sc.path, sc.big, sc.k), true)
 		rep.Count("fault-scenario:" + sc.path)
@@ -375,6 +457,9 @@ func faultPhase(env *vh.Env, rep *vh.Report, r *vh.Rng) {
 		wholeCount := map[string]int{}
 		problem, where := "", -1
 		for ci, c := range conns {
+			if c.sentinel {
+				continue
+			}
 			dead := c.killed || c.eof
 			// candidates: the frame that was broken first (a 1-byte prefix matches every frame)
 			cands := append([]faultPack{byName[sc.big]}, packs...)
@@ -406,6 +491,10 @@ func faultPhase(env *vh.Env, rep *vh.Report, r *vh.Rng) {
 			kclass = "header-boundary"
 		case sc.k >= len(byName[sc.big].frame)-1:
 			kclass = "last-byte"
+		}
+		if inconclusive {
+			rep.Count("fault:inconclusive-connection-still-open")
+			continue
 		}
 		if !run.OK() {
 			rep.Fail("property", "OneWayTcpClient.fault:"+sc.path+":"+run.String(), "the client hung or panicked after the peer reset the connection inside a frame: "+vh.Clip(run.Panic, 200), replayObj)
